@@ -33,7 +33,18 @@ var c07Ext1 = c07Entry{poolName(1), "*props.ExtP1Claims", 1, "psa-profile"}
 var c07Own = c07Entry{poolName(2), "*props.OwnTagClaims", 2, "own-profile"}
 
 // register configurations: which extension profiles are registered in addition to the built-ins
-var c07Configs = [][]c07Entry{{}, {c07Ext0}, {c07Ext1}, {c07Ext0, c07Ext1}, {c07Own}, {c07Ext0, c07Ext1, c07Own}}
+var c07Configs = [][]c07Entry{{}, {c07Ext0}, {c07Ext1}, {c07Ext0, c07Ext1}, {c07Own}, {c07Ext0, c07Ext1, c07Own}, {c07Refused}, {c07Ext0, c07Refused}}
+
+// a registration that is refused (claims type without a discoverable profile field): its name stays unregistered
+var c07Refused = c07Entry{name: "http://example.com/psa/refused", typ: "refused"}
+
+// c07Respell spells a registered name differently (case of the scheme / of the whole P1 name): a different string, so not registered
+func c07Respell(name string) string {
+	if strings.HasPrefix(name, "http://") {
+		return "HTTP://" + name[7:]
+	}
+	return strings.ToLower(name)
+}
 
 func c07Registered(cfg []c07Entry) map[string]c07Entry {
 	m := map[string]c07Entry{
@@ -42,12 +53,14 @@ func c07Registered(cfg []c07Entry) map[string]c07Entry {
 		refmodel.P2Name: {refmodel.P2Name, "*psatoken.P2Claims", 2, "eat-profile"},
 	}
 	for _, e := range cfg {
-		m[e.name] = e
+		if e.typ != "refused" {
+			m[e.name] = e
+		}
 	}
 	return m
 }
 
-var c07Variants = []string{"own-name", "absent", "null", "unknown-url", "other-builtin-name", "ext0-name", "ext1-name", "own-tag-ext-name", "both-keys", "wrong-type", "own-name-json-escaped"}
+var c07Variants = []string{"own-name", "absent", "null", "unknown-url", "other-builtin-name", "ext0-name", "ext1-name", "own-tag-ext-name", "both-keys", "wrong-type", "own-name-json-escaped", "own-name-respelled", "refused-registration-name"}
 
 type c07Token struct {
 	shape     int  // key family of the claims in the token
@@ -100,6 +113,10 @@ func c07Build(shape int, valid bool, variant int) *c07Token {
 		t.otherVal = sp(other)
 	case "wrong-type":
 		t.ownVal = float64(7)
+	case "own-name-respelled":
+		t.ownVal = c07Respell(own)
+	case "refused-registration-name":
+		t.ownVal = c07Refused.name
 	}
 	tree := wireTree(&a, true)
 	var m map[string]any
@@ -415,6 +432,11 @@ func c07Install(cfgI int, initial any) {
 	for _, e := range c07Configs[cfgI] {
 		var p psatoken.IProfile
 		switch e.typ {
+		case "refused":
+			if err := psatoken.RegisterProfile(BadProfile{Name: e.name}); err == nil {
+				panic(choice.HarnessError{Msg: "c07 install: registration of a claims type without profile field was accepted"})
+			}
+			continue
 		case "*props.ExtP2Claims":
 			p = ExtProfile{e.name, 2}
 		case "*props.ExtP1Claims":
@@ -438,7 +460,7 @@ func init() {
 			valid := c.Choose("claims-valid", 2) == 0
 			variant := c.Choose("profile-claim", len(c07Variants))
 			c07Install(cfgI, initial)
-			n := 3 + len(c07Configs[cfgI])
+			n := len(c07Registered(c07Configs[cfgI]))
 			nperm := 1
 			if isJSON && instrOn {
 				nperm = sched.Factorial(n)
@@ -463,13 +485,96 @@ func init() {
 				if _, err := psatoken.NewClaims("http://unknown.example/p"); err == nil {
 					c.Failf("C07:newclaims-unknown", "NewClaims of an unregistered profile succeeded")
 				}
+				for name := range c07Registered(c07Configs[cfgI]) {
+					if name != "" {
+						if cl, err := psatoken.NewClaims(c07Respell(name)); err == nil {
+							c.Failf("C07:newclaims-respelled", "NewClaims(%q) (not a registered name; %q is) succeeded: %T", c07Respell(name), name, cl)
+						}
+					}
+				}
+				if cl, err := psatoken.NewClaims(c07Refused.name); err == nil {
+					c.Failf("C07:newclaims-refused-registration", "NewClaims(%q) succeeded: %T", c07Refused.name, cl)
+				}
 			}
 			psatoken.VerifRegistryRestore(initial)
+		}, nil
+	}
+	// "a token is only ever validated under the rules of the profile it declares": a registered derived profile with
+	// stricter rules (non-negative client id, no certification reference, boot seed mandatory) next to plain profile 2
+	Scenarios["c07.declared-profile-rules"] = func() (choice.Scenario, func() any) {
+		initial := builtinsOnly(psatoken.VerifRegistrySave())
+		k := fixtures.Get("ES256", 1)
+		return func(c *choice.Ctx) {
+			psatoken.VerifRegistryRestore(initial)
+			defer psatoken.VerifRegistryRestore(initial)
+			if err := psatoken.RegisterProfile(ExtStrictProfile{}); err != nil {
+				panic(choice.HarnessError{Msg: err.Error()})
+			}
+			declared := []string{ExtStrictName, refmodel.P2Name}[c.Choose("declares", 2)]
+			a := *c02Claims()[0]
+			a.BootSeed, a.CertRef = bp(pat(32, 0x20)), nil
+			what := c.Choose("claims", 6)
+			switch what {
+			case 1:
+				a.ClientID = i32p(-1)
+			case 2:
+				a.CertRef = sp(ean13p5)
+			case 3:
+				a.BootSeed = nil
+			case 4:
+				a.ImplID = bp(pat(31, 1)) // invalid under both
+			case 5:
+				a.ClientID, a.BootSeed = i32p(-2147483648), bp(pat(8, 3))
+			}
+			a.Canon, a.Profile = declared, sp(declared)
+			want := a.Valid()
+			if declared == ExtStrictName {
+				want = want && *a.ClientID >= 0 && a.CertRef == nil && a.BootSeed != nil
+			}
+			wantT := map[string]string{ExtStrictName: "*props.ExtStrictClaims", refmodel.P2Name: "*psatoken.P2Claims"}[declared]
+			wire := mcbor.Encode(wireTree(&a, true))
+			prot := protHeader("ES256")
+			dec := c.Choose("validating-decoder", 3)
+			var cl psatoken.IClaims
+			var err error
+			name := ""
+			switch dec {
+			case 0:
+				name = "DecodeAndValidateClaimsFromCBOR"
+				cl, err = psatoken.DecodeAndValidateClaimsFromCBOR(wire)
+			case 1:
+				name = "DecodeAndValidateClaimsFromJSON"
+				cl, err = psatoken.DecodeAndValidateClaimsFromJSON(wireJSON(&a))
+			case 2:
+				name = "DecodeAndValidateEvidenceFromCOSE"
+				var ev *psatoken.Evidence
+				ev, err = psatoken.DecodeAndValidateEvidenceFromCOSE(envelope(prot, mcbor.M(), wire, rawSign(k, "ES256", prot, wire)))
+				if err == nil {
+					cl = ev.Claims
+				}
+			}
+			tag := fmt.Sprintf("%s:declares-%s:claims-%d", name, map[string]string{ExtStrictName: "derived", refmodel.P2Name: "P2"}[declared], what)
+			c07stats.StateStr(tag)
+			c07stats.Trans.Add(1)
+			switch {
+			case want && err != nil:
+				c.Failf("C07:declared-rules:rejected:"+tag, "conforms to the rules of the profile it declares, yet: %v", err)
+			case !want && err == nil:
+				c.Failf("C07:declared-rules:accepted:"+tag, "violates the rules of the profile it declares (%s) and was accepted as %T", declared, cl)
+			case want:
+				if got := fmt.Sprintf("%T", cl); got != wantT {
+					c.Failf("C07:declared-rules:type:"+tag, "got %s want %s", got, wantT)
+				} else if p, perr := cl.GetProfile(); perr != nil || p != declared {
+					c.Failf("C07:declared-rules:reports:"+tag, "accepted token reports %q (%v), declared %q", p, perr, declared)
+				}
+			}
+			c07stats.Outcome(fmt.Sprintf("declared-rules:%v", want))
 		}, nil
 	}
 	Checks["C07"] = func(r *evid.Run) {
 		c07stats = NewStats()
 		dl := deadline(r, 55*time.Second, 20*time.Minute)
+		exploreChoiceOpts(r, "c07.declared-profile-rules", -1, dl, 1)
 		exploreChoiceOpts(r, "c07.dispatch", -1, dl, 1)
 		c07stats.Publish(r)
 		for k, v := range instrInfo() {
